@@ -52,7 +52,7 @@ func VerifDoVolumeBasedDeletion(ingestNodeDir string, allowedVolumeGB uint64, de
 	},
 	{
 		file:  "pkg/segment/writer/segmetarw.go",
-		funcs: set("removeSegmetas"),
+		funcs: set("removeSegmetas", "removeSegmetasHelper"),
 	},
 	{
 		file:  "pkg/segment/writer/metrics/meta/metricsmeta.go",
@@ -64,8 +64,8 @@ func VerifDoVolumeBasedDeletion(ingestNodeDir string, allowedVolumeGB uint64, de
 	},
 }
 
-// optionalFuncs may be absent (helpers that a repair of the tree removes).
-var optionalFuncs = set()
+// optionalFuncs may be absent (helpers that a repair of the tree adds or removes).
+var optionalFuncs = set("removeSegmetasHelper")
 
 func set(names ...string) map[string]bool {
 	m := map[string]bool{}
